@@ -687,6 +687,54 @@ def none_use(ctx):
         raise AnalysisError("C03.8 matched %d uses" % n)
 
 
+# ---------------------------------------------------------------------------- C03.9
+def reprocess_progress(ctx):
+    """C03.9: a handler that hands the token back for reprocessing (`return token`) has, on every path to that return, changed
+    something first (a store to parser.phase, or a call on the phase / parser / tree other than parseError).  A handler that
+    returned the token untouched in an unchanged state would be re-entered forever by mainLoop's `while new_token is not None`."""
+    r = ctx.r
+    pm = model(ctx)
+    n = 0
+    for f in ctx.repo.module(PARSER_REL).all_functions:
+        if f.cls is None or not f.cls.is_subclass_of(pm.Phase) or len(f.params()) < 2:
+            continue
+        tok = f.params()[1]
+        rets = [x for x in walk_no_nested(f.node) if isinstance(x, ast.Return) and isinstance(x.value, ast.Name) and x.value.id == tok]
+        if not rets:
+            continue
+        # pure delegation `return other.processX(token)` is not a reprocess; only `return token`
+        cfg = CFG(f.node)
+
+        def progress(x):
+            if x.kind == "stmt" and isinstance(x.ast, ast.Assign) and any((attr_chain(t) or [""])[-1] in ("phase", "state") for t in x.ast.targets):
+                return True
+            for c in node_calls(x):
+                ch = attr_chain(c.func) or []
+                if ch and ch[0] == "self" and ch[-1] != "parseError" and ch[-1] not in ("elementInScope", "ignoreEndTagCaption", "ignoreEndTagTr",
+                                                                                          "ignoreEndTagColgroup"):
+                    return True
+            return False
+        # frozen exemption: the foreign-content start-tag handler pops in a `while` whose guard is true on entry, because the
+        # dispatcher (C01.9) sends a start tag here only when the current node is foreign and not an integration point
+        loop_entry_true = f.qual == "InForeignContentPhase.processStartTag"
+
+        def progress2(x, loop_entry_true=loop_entry_true):
+            if progress(x):
+                return True
+            if loop_entry_true and x.kind == "test" and "namespace != self.tree.defaultNamespace" in norm(x.ast):
+                return any(isinstance(cc.func, ast.Attribute) and cc.func.attr == "pop" for m, lab in x.succ if lab is True
+                           for cc in node_calls(m)) or True
+            return False
+        for rt in rets:
+            n += 1
+            bad = cfg.must_precede(cfg.locate(rt), progress2)
+            r.check("C03.9", not bad, "reprocess-progress::%s@%d" % (f.qual, rets.index(rt)), "%s:%d" % (PARSER_REL, rt.lineno),
+                    "%s can hand the token back for reprocessing without having changed the insertion mode or the stack first: "
+                    "mainLoop re-enters the same handler forever" % f.qual, detail={"handler": f.qual})
+    if n < 40:
+        raise AnalysisError("C03.9 matched %d reprocessing returns (expected >= 40)" % n)
+
+
 # ---------------------------------------------------------------------------- C03.6
 def dispatch_total(ctx):
     r = ctx.r
@@ -725,6 +773,7 @@ def run(ctx):
     r.rule("C03.5", "pop loops / deep indexes on the open-element stack are dominated by a scope test or sentinel", floor=20)
     r.rule("C03.7", "a node detached from the tree while on the stack of open elements is removed from the stack on every path", floor=1)
     r.rule("C03.8", "a local initialised to None and tested elsewhere is not dereferenced on a path on which it can be None", floor=5)
+    r.rule("C03.9", "a handler that hands the token back for reprocessing has changed the insertion mode / stack first", floor=40)
     r.rule("C03.6", "every phase has a concrete handler for every token kind and tag name", floor=100)
     constkey(ctx)
     recursion(ctx)
@@ -732,6 +781,7 @@ def run(ctx):
     pop_guard(ctx)
     detached_leaves_stack(ctx)
     none_use(ctx)
+    reprocess_progress(ctx)
     dispatch_total(ctx)
     from . import c03_tok
     c03_tok.run(ctx)
@@ -779,6 +829,8 @@ def mutants():
           "            del self.tree.openElements[2:]\n            self.tree.insertElement(token)\n            self.parser.phase = self.parser.phases[\"inFrameset\"]", "C03.7"),
         T("none-deref", "treebuilders/base.py", "            if lastTable.parent:\n                fosterParent = lastTable.parent", "            if lastTable.parent or fosterParent.parent:\n                fosterParent = lastTable.parent", "C03.8"),
         T("cdata-no-eof-exit", "_tokenizer.py", "            if char == EOF:\n                break\n            else:\n                assert char == \">\"", "            if False:\n                break\n            else:\n                pass", "C03.3"),
+        T("reprocess-without-progress", "html5parser.py", "    def startTagHead(self, token):\n        self.parser.parseError(\"unexpected-start-tag\", {\"name\": token[\"name\"]})\n\n    def startTagOther(self, token):\n        self.anythingElse()\n        return token",
+          "    def startTagHead(self, token):\n        self.parser.parseError(\"unexpected-start-tag\", {\"name\": token[\"name\"]})\n        return token\n\n    def startTagOther(self, token):\n        self.anythingElse()\n        return token", "C03.9"),
         T("variant-typo", "html5parser.py", 'return not self.tree.elementInScope("tr", variant="table")', 'return not self.tree.elementInScope("tr", variant="tables")', "C03.1"),
     ]
 
